@@ -27,6 +27,17 @@ UzV(v) == IF v[1] = "bits" THEN WordVal(v[2], v[3])
 TyOf(t) == [i \in 1..Len(t) |-> <<Uz(t[i][1]), Uz(t[i][2])>>]
 WitOf(w) == [i \in 1..Len(w) |-> UzV(w[i])]
 \* program-level nodes as logged -> the spec's program nodes (types of leaves decompressed lazily by Typing!Rule)
+(* Named deviation (known finding c01:commit-keeps-types-of-dropped-branch, followed only while IOEnv.COMMITDISC = "allow"):
+   a program constructed with a branch attached to a disconnect is finalised to a commitment-time program that drops the
+   branch but keeps the types the branch forced; sub-expressions that differ only in such types are serialised twice,
+   and the commitment-time decoder, which infers the types afresh, refuses the bytes as not maximally shared. *)
+ASSUME TLCSet(5, 0)
+DeviationOn == "COMMITDISC" \in DOMAIN IOEnv /\ IOEnv.COMMITDISC = "allow"
+DisconnectedTypesDeviation(e) ==
+  /\ DeviationOn
+  /\ \E i \in 1..Len(e.cdag) : e.cdag[i][1] = "disc" /\ e.cdag[i][3] # 0
+  /\ e.commit.out = "err" /\ e.commit.msg = "Decoded programs must have maximal sharing"
+  /\ TLCSet(5, TLCGet(5) + 1)
 ClausesC01(e) ==
   LET d == e.dag  t == TyOf(e.ty)  w == WitOf(e.wit)
       rd == e.rt.redeem IN
@@ -34,7 +45,8 @@ ClausesC01(e) ==
    \* 1: the crate's own round trip at redemption time
    rd.res = "ok" /\ rd.same_bytes /\ rd.same_nodes /\ rd.same_root,
    \* 2: and at commitment time (an attached disconnect branch is accepted and discarded by that decoder)
-   e.commit.out = "ok" /\ e.commit.same_cmr /\ (e.commit.attached \/ e.commit.reenc_prog),
+   \/ e.commit.out = "ok" /\ e.commit.same_cmr /\ (e.commit.attached \/ e.commit.reenc_prog)
+   \/ DisconnectedTypesDeviation(e),
    \* 3: the crate's arrows are a typing of the program
    WellTyped(d, t, TRUE),
    \* 4: the spec encoder explains the crate's bytes
@@ -72,8 +84,9 @@ AllTrue(cl) == \A k \in 1..Len(cl) : cl[k]
 Init == l = 1
 Next == l <= Len(Rec) /\ (AllTrue(Clauses(Rec[l])) = TRUE) /\ l' = l + 1
 Spec == Init /\ [][Next]_l
-Accepted == IF TLCGet("stats").diameter - 1 = Len(Rec) THEN TRUE
-            ELSE /\ PrintT(<<"REJECTED", TLCGet("stats").diameter>>)
-                 /\ PrintT(<<"DIAG", Clauses(Rec[TLCGet("stats").diameter])>>)
-                 /\ FALSE
+Accepted == /\ PrintT(<<"DEVIATION", TLCGet(5)>>)
+            /\ IF TLCGet("stats").diameter - 1 = Len(Rec) THEN TRUE
+               ELSE /\ PrintT(<<"REJECTED", TLCGet("stats").diameter>>)
+                    /\ PrintT(<<"DIAG", Clauses(Rec[TLCGet("stats").diameter])>>)
+                    /\ FALSE
 =============================================================================
